@@ -1,11 +1,10 @@
 HOOK_COMMITS = ["70cbc3d"]
-ALL_TLC = ["C01", "C09", "C10", "C18"]
 NOTES = ("Model-based verification with explicit TLA+ specifications (spec/*.tla), checked by TLC and bound to the code by "
          "replaying TLC-generated transitions/scenarios into the real library and by validating recorded traces of the real "
          "library against trace specs. See DESIGN.md. Exit codes: 0 held, 1 VIOLATION, 2 machinery error (never a verdict).")
 ENGINES = [
-    dict(name="tlc", path="/opt/veriftools/tla/tla2tools.jar", serves_properties=ALL_TLC, kind_free_text="explicit-state model checker for TLA+ (exhaustive MC, scenario/edge emission, trace validation)"),
-    dict(name="vh", path="harness/cmd/vh", serves_properties=ALL_TLC, kind_free_text="Go conformance harness rebuilt from /repo's working tree with -tags verif"),
+    dict(name="tlc", path="/opt/veriftools/tla/tla2tools.jar", serves_properties=[], kind_free_text="explicit-state model checker for TLA+ (exhaustive MC, scenario/edge emission, trace validation)"),
+    dict(name="vh", path="harness/cmd/vh", serves_properties=[], kind_free_text="Go conformance harness rebuilt from /repo's working tree with -tags verif"),
 ]
 NOT_APPLICABLE = {}
 CHECKS = {
@@ -34,3 +33,18 @@ CHECKS = {
         note="Trusted: TLC, the Dump() projection (values encode their key), the Go harness. Capacities/keys beyond the bounds are sampled by the random recordings only.",
     ),
 }
+
+CHECKS["C14"] = dict(
+    engine="tlc", level="model_checking",
+    technique="TLA+ spec RuleText.tla (grammar, builder, per-character splitter with fast/slow path and quote stack, parser with its index searches); mechanism => laws model-checked; the laws NoLoss / QuotedCommasKept / OuterCommasSplit / RoundTrip evaluated by TLC in constant mode (Judge_RuleText.tla) on outputs recorded from the real GenValidKV, RM.Set/Get, ValidNamesSplit, ParseValidNameKV",
+    text="TLC model-checks the splitter and parser machines against the laws (44 897 + 22 388 states quick; 324 395 + 132 716 thorough) and a sanity config of the pinned parser must fail. Bound to the code: every string of length <=6 (quick, 55 987) / <=7 (thorough, 335 923) over {a , ' = | ~} plus 3 000 / 30 000 seeded random strings over a 14-symbol alphabet go through the real ValidNamesSplit (fast and slow path both exercised); every single rule over 5 keys x values x messages of <=2-3 symbols over an 11-symbol alphabet (29 900 / 492 401), all pairs of a 160-rule pool (25 600) and, thorough, all triples of a 24-rule pool (13 824) go through GenValidKV -> RM.Set (three calling patterns) -> Get -> ValidNamesSplit -> ParseValidNameKV; TLC judges the laws on all 114 487 / 897 748 recorded outputs.",
+    note="Lists of 2-3 rules come from pools, not the full single-rule window. What the splitter does with an unbalanced quote is unconstrained except for NoLoss. Trusted: TLC, the wire alphabet mapping, the Go harness.",
+)
+CHECKS["C15"] = dict(
+    engine="tlc", level="model_checking",
+    technique="TLA+ spec Explain.tla: Extract contract, default-wording table and the byte-level extractor loop model-checked (pinned loop must fail in a sanity config); every clause sequence of length <=4 and every rule x message-shape x carrier case is emitted by TLC with its expectation, produced by the real library itself, and clause text and GetOnlyExplainErr output are compared with the expectation",
+    text="MC_Explain checks the repaired clause-wise extractor against Extract on all clause sequences (7 464 states). Gen_Explain emits 7 776 clause sequences of length 1..4 over {zh pure CJK, zh mixed, en, default wording, unknown rule, rule-writing error}, each produced by the real library through struct, Var and Url (Map for length 1), with and without a trailing group clause, and 564 sweep cases (36 rule rows incl. both sides of to/oto and missing-path/wrong-kind file/dir x {no message, ASCII, CJK, mixed} x four carriers): the clause must show the message verbatim with the label chosen by the CJK test, the default wording otherwise, and GetOnlyExplainErr(err) must equal the join of the expected explanations. 8 340 cases per run, message strings rotate with the seed.",
+    note="Error text -> (label, explanation) abstraction is done by the harness; wording for a missing path without a message is free; messages do not contain the separator, a label word, ',', '=' or '|' (those are C14's domain).",
+)
+for _e in ENGINES:
+    _e["serves_properties"] = sorted(CHECKS)
